@@ -52,7 +52,8 @@ def generate(tier, seed):
             sources.append(dict(name='src%d' % s, nd=nd, fits=[dict(name=n, chi2=c, av=rng.dyadic(0, 20, 8), sc=rng.dyadic(-2, 2, 8)) for n, c in zip(chosen, chi)]))
         selform = rng.choice('ANNCDEF')
         sel = [selform, float(rng.randint(0, nm + 1)) if selform == 'N' else rng.dyadic(0, 30, 8) + 2.0 ** -12]
-        cases.append(dict(writer=writer, form=form, sel=sel, table=dict(names=names, cols=cols), additional=additional if writer in ('params', 'ranges', 'filter_table', 'plot1d') else None,
+        cases.append(dict(writer=writer, form=form, sel=sel, table=dict(names=names, cols=cols), additional=additional if writer in ('params', 'ranges', 'filter_table', 'plot1d', 'plot2d') else None,
+                          plot_add=bool(additional) and writer.startswith('plot') and rng.random() < 0.6,      # the plotted quantity is one of the additional parameters
                           sources=sources))
     return cases
 
@@ -135,10 +136,13 @@ def impl(case):
             del verif_hook.RECORDS[:]
             pars = list(case['table']['cols'])
             if case['writer'] == 'plot1d':
-                plot_params_1d(arg, pars[0], output_dir=os.path.join(d, 'plots'), select_format=sel, additional=add, bins=5)
+                plot_params_1d(arg, list(add)[0] if case.get('plot_add') else pars[0], output_dir=os.path.join(d, 'plots'), select_format=sel, additional=add, bins=5)
+            elif case.get('plot_add'):
+                plot_params_2d(arg, pars[0], list(add)[0], output_dir=os.path.join(d, 'plots'), select_format=sel, log_y=False, additional=add)
             else:
                 # the y axis is logarithmic by default; a parameter without any positive value has no such axis (the call is refused), so ask for a linear one then
-                plot_params_2d(arg, pars[0], pars[-1], output_dir=os.path.join(d, 'plots'), select_format=sel, log_y=any(v > 0 for v in case['table']['cols'][pars[-1]]))
+                plot_params_2d(arg, pars[0], pars[-1], output_dir=os.path.join(d, 'plots'), select_format=sel, log_y=any(v > 0 for v in case['table']['cols'][pars[-1]]),
+                               **(dict(additional=add) if add else {}))
             recs = list(verif_hook.RECORDS)
             del verif_hook.RECORDS[:]
             os.environ.pop('SEDFITTER_VERIF', None)
